@@ -7,13 +7,25 @@ Model: AgVerif.LoadOrder (`kahn` = TypeMapItem.determine_load_order, `sortByKey`
 Generated: AgVerif.Gen.MapDeps (`members`, `deps` by AST; `loadOrder` = what the real
 determine_load_order() returned on this run).
 
-What is proved: the ordering logic, for every map list and EVERY item parser `step`.
-What is not proved here: that the real `parse` of each item type reads only what its declared
-dependencies provide and nothing from the map_list region of the file — the dependency table is
-the code's own claim; it is validated by the correspondence `dexperm` of harness/props/c07.py.
+What is proved: the ordering logic, for every map list and EVERY item parser `step`; and, for the
+concrete file-level loader model of C05 (Model/DexFile.lean: `step`, `loadEntries`, `parseDex`),
+ * the frame property of every modelled item parser against the dependency table of the source
+   (`step_frame`, `deps_adequate`, sharpness `reads_all_needed`, equivalence
+   `frame_iff_deps_adequate`, refutations for mutated tables `deps_mutants_refuted`),
+ * permutation invariance of `parseDex` at file level, errors included (`parse_perm_invariant`),
+   under the decidable hypothesis that no item decodes differently after the map list was
+   rewritten, and that this hypothesis cannot be dropped (`parse_perm_needs_items`).
+What is not proved here: that the real `parse` of the item types WITHOUT a parser in
+Model/DexFile.lean (annotations, debug info, encoded arrays, call sites, method handles,
+hidden-api data) reads only what its declared dependencies provide — for those the dependency
+table stays the code's own claim, validated by the correspondence `dexperm` of
+harness/props/c07.py; and a geometric criterion (item regions disjoint from the map list) for
+the `sameItems` hypothesis.
 -/
 import AgVerif.Proof.LoadOrder
 import AgVerif.Gen.MapDeps
+import AgVerif.Proof.DexDeps
+import AgVerif.Proof.DexPerm
 namespace AgVerif.C07
 open AgVerif.LoadOrder AgVerif.Gen.MapDeps
 
@@ -135,5 +147,139 @@ example : kahn [(1, [2]), (2, [1])] = .recursive := by decide
 example : kahn [(1, [2]), (2, [])] = .ok [(2, 0), (1, 1)] := by decide
 example : sortByKey (fun p : Nat × Nat => p.1) [(2, 0), (1, 1), (2, 2), (1, 3)] =
     [(1, 1), (1, 3), (2, 0), (2, 2)] := by decide   -- stable
+
+/-- non-vacuity: header (map_off = 0x44), one string "A" at 0x38, its string id at 0x3C, one type id
+    at 0x40, map list (4 entries) at 0x44 -/
+def exampleFile : DexFile.Bytes :=
+  [0, 0, 0, 0, 0, 0, 0, 0, 0, 0, 0, 0, 0, 0, 0, 0, 0, 0, 0, 0, 0, 0, 0, 0, 0, 0, 0, 0, 0, 0, 0, 0, 0, 0, 0, 0, 0, 0, 0, 0, 0, 0, 0, 0, 0, 0, 0, 0, 0, 0, 0, 0,
+   68, 0, 0, 0, 1, 65, 0, 0, 56, 0, 0, 0, 0, 0, 0, 0, 4, 0, 0, 0,
+   1, 0, 0, 0, 1, 0, 0, 0, 60, 0, 0, 0, 2, 0, 0, 0, 1, 0, 0, 0, 64, 0, 0, 0,
+   2, 32, 0, 0, 1, 0, 0, 0, 56, 0, 0, 0, 0, 16, 0, 0, 1, 0, 0, 0, 68, 0, 0, 0]
+
+def exampleFileMap : List MapEntry := [⟨1, 1, 0x3C⟩, ⟨2, 1, 0x40⟩, ⟨0x2002, 1, 0x38⟩, ⟨0x1000, 1, 0x44⟩]
+
+/-- header (map_off = 0x38) and a map list of two entries whose STRING_DATA entry points at the
+    first map entry itself -/
+def overlapFile : DexFile.Bytes :=
+  [0, 0, 0, 0, 0, 0, 0, 0, 0, 0, 0, 0, 0, 0, 0, 0, 0, 0, 0, 0, 0, 0, 0, 0, 0, 0, 0, 0, 0, 0, 0, 0, 0, 0, 0, 0, 0, 0, 0, 0, 0, 0, 0, 0, 0, 0, 0, 0, 0, 0, 0, 0,
+   56, 0, 0, 0, 2, 0, 0, 0, 2, 32, 0, 0, 1, 0, 0, 0, 60, 0, 0, 0, 0, 16, 0, 0, 1, 0, 0, 0, 56, 0, 0, 0]
+
+/-! ## The concrete loader: `AgVerif.DexFile.step` / `parseDex` (the file-level model of C05)
+
+Tables of the ClassManager are named by the map type that fills them (`DexFrame.sameTable`,
+`agreeOn D cm₁ cm₂` = the two states hold the same tables for all types in `D`);
+`closure deps T` = the types reachable from `T` in the dependency table of the source;
+`reads T` = the tables the modelled item parser of `T` looks at; `FrameOK file e cm₁ cm₂` = the runs
+of `step file · e` from `cm₁` and `cm₂` raise the same exception, or both succeed, write the same
+table for `e.type` and leave every other table of their state as it was.
+Map types without an item parser in Model/DexFile.lean (annotations, debug info, encoded arrays,
+call sites, method handles, hidden-api data) leave the model state unchanged: for them the
+dependency claims stay covered by the correspondence `dexperm` only. -/
+open AgVerif.DexFile AgVerif.DexFrame AgVerif.DexPerm
+
+/-- (1) frame, against the table of the source: the item parser of every entry depends on the
+    ClassManager only through the tables of the (transitively) declared dependencies of its type.
+    This is the theorem that stops building when the table of the source drops a real dependency
+    (`deps_adequate` fails, and by `frame_iff_deps_adequate` the statement itself becomes false). -/
+theorem step_frame (file : Bytes) (e : MapEntry) (cm₁ cm₂ : CM)
+    (h : agreeOn (closure deps e.type) cm₁ cm₂) : FrameOK file e cm₁ cm₂ :=
+  step_frame_of_adequate deps deps_adequate.1 file e cm₁ cm₂ h
+
+/-- (1') frame, sharp form: agreement on `reads e.type` is enough … -/
+theorem step_frame_sharp (file : Bytes) (e : MapEntry) (cm₁ cm₂ : CM)
+    (h : agreeOn (reads e.type) cm₁ cm₂) : FrameOK file e cm₁ cm₂ :=
+  step_frame_reads file e cm₁ cm₂ h
+
+/-- … and nothing in `reads` can be left out: for each pair there are two states that differ in
+    that one table only and an item on which the parser's output (or failure) differs. -/
+theorem reads_all_needed : ∀ T ∈ modelled, ∀ D ∈ reads T, ∃ file e cm₁ cm₂, e.type = T ∧
+    (∀ t, t ≠ D → sameTable t cm₁ cm₂) ∧ ¬ FrameOK file e cm₁ cm₂ :=
+  fun T hT D hD => ⟨witFile, ⟨T, 1, 0⟩, witCM, clear D witCM, rfl,
+    fun t ht => clear_sameTable D t witCM ht, fun h => reads_exact T hT D hD h.writeSame⟩
+
+/-- (3) the generated dependency table contains, up to transitivity, every (T, D) such that the
+    modelled parser of T reads table D (and TYPE_ID → STRING_DATA, which the real TypeIdItem reads). -/
+theorem deps_adequate : adequate deps ∧ 0x2002 ∈ closure deps 0x0002 := DexFrame.deps_adequate
+
+/-- for ANY dependency table the frame property is equivalent to adequacy -/
+theorem frame_iff_deps_adequate (d : Deps) :
+    (∀ file e cm₁ cm₂, agreeOn (closure d e.type) cm₁ cm₂ → FrameOK file e cm₁ cm₂) ↔ adequate d :=
+  frame_iff_adequate d
+
+/-- refutation for mutated tables: without CLASS_DEF → CLASS_DATA (or STRING_ID → STRING_DATA,
+    TYPE_ID → STRING_ID, METHOD_ID → PROTO_ID, PROTO_ID → TYPE_LIST) the frame property is false … -/
+theorem deps_mutants_refuted :
+    ∀ p ∈ [(0x0006, 0x2000), (0x0001, 0x2002), (0x0002, 0x0001), (0x0005, 0x0003), (0x0003, 0x1001)],
+    ¬ ∀ file e cm₁ cm₂, agreeOn (closure (dropDep deps p.1 p.2) e.type) cm₁ cm₂ → FrameOK file e cm₁ cm₂ := by
+  have h := deps_mutants_inadequate
+  intro p hp
+  rw [frame_iff_adequate]
+  simp only [List.mem_cons, List.not_mem_nil, or_false] at hp
+  rcases hp with rfl | rfl | rfl | rfl | rfl
+  · exact h.1
+  · exact h.2.1
+  · exact h.2.2.1
+  · exact h.2.2.2.1
+  · exact h.2.2.2.2
+
+/-- … whereas (CLASS_DEF, TYPE_ID) is implied by CLASS_DEF → TYPE_LIST → TYPE_ID, and the direct
+    entries alone (without transitivity) do not cover the reads. -/
+theorem deps_transitivity_needed :
+    adequate (dropDep deps 0x0006 0x0002) ∧ ¬ (∀ T ∈ modelled, ∀ D ∈ reads T, D ∈ direct deps T) :=
+  ⟨deps_redundant_pair, deps_direct_not_enough⟩
+
+/-- (2) C07 for the concrete loader model, file level.  `file` is any byte list whose header field
+    map_off (at 0x34) points behind itself to a map list that reads as `es` with pairwise distinct
+    types; `es'` is any permutation of `es`; `withMap file mapOff es'` is the file with the entries
+    of the map list overwritten by `es'`.  If no item decodes differently after the overwriting
+    (`sameItems`, a decidable comparison of the raw item decoders, entry by entry: it holds when no
+    item is read from the bytes of the map list itself), then `parseDex` returns the same view — or
+    the same error: a failing item decoder, a failing lookup and a KeyError in the load order are
+    all covered. -/
+theorem parse_perm_invariant (file : Bytes) (mapOff : Nat) (rest : Bytes) (es es' : List MapEntry)
+    (hbytes : ∀ b ∈ file, b < 256)
+    (hhdr : u32 (file.drop 0x34) = some (mapOff, rest)) (hoff : 0x34 ≤ mapOff)
+    (hmap : readMap file mapOff = .ok es)
+    (hperm : es'.Perm es) (hdistinct : (es.map (·.type)).Nodup)
+    (hitems : ∀ e ∈ es, sameItems (withMap file mapOff es') file e) :
+    parseDex (withMap file mapOff es') = parseDex file :=
+  parse_withMap file mapOff rest es es' hbytes hhdr hoff hmap hperm
+    (maplist_perm_invariant "KeyError" (step _) {} es' es hperm
+      ((hperm.map (·.type)).nodup_iff.mpr hdistinct)) hitems
+
+/-- the same for two arbitrary files: equal map_off, map lists that are permutations of each other
+    (distinct types), same raw items ⇒ same parse result. -/
+theorem parse_perm_invariant_files (f g : Bytes) (mapOff : Nat) (rf rg : Bytes) (es es' : List MapEntry)
+    (hf : u32 (f.drop 0x34) = some (mapOff, rf)) (hg : u32 (g.drop 0x34) = some (mapOff, rg))
+    (hmf : readMap f mapOff = .ok es) (hmg : readMap g mapOff = .ok es')
+    (hperm : es'.Perm es) (hdistinct : (es.map (·.type)).Nodup)
+    (hitems : ∀ e ∈ es, sameItems g f e) : parseDex g = parseDex f := by
+  refine parseDex_congr f g mapOff rf rg es es' hf hg hmf hmg ?_
+  rw [show loadEntries g es' = loadEntries g es from
+    maplist_perm_invariant "KeyError" (step g) {} es' es hperm
+      ((hperm.map (·.type)).nodup_iff.mpr hdistinct)]
+  exact loadEntries_file_congr g f es hitems
+
+/-- the hypothesis about the items cannot be dropped: a file whose string data item lies inside its
+    own map list satisfies everything else, and swapping its two map entries changes the parsed
+    string (0x20 becomes 0x10). -/
+theorem parse_perm_needs_items : ∃ (file : Bytes) (mapOff : Nat) (rest : Bytes) (es es' : List MapEntry),
+    (∀ b ∈ file, b < 256) ∧ u32 (file.drop 0x34) = some (mapOff, rest) ∧ 0x34 ≤ mapOff ∧
+    readMap file mapOff = .ok es ∧ es'.Perm es ∧ (es.map (·.type)).Nodup ∧
+    parseDex file = .ok ⟨[[0x20]], []⟩ ∧ parseDex (withMap file mapOff es') = .ok ⟨[[0x10]], []⟩ :=
+  ⟨overlapFile, 0x38, overlapFile.drop 0x38, [⟨0x2002, 1, 0x3C⟩, ⟨0x1000, 1, 0x38⟩],
+    [⟨0x1000, 1, 0x38⟩, ⟨0x2002, 1, 0x3C⟩], by decide +kernel, by decide +kernel, by decide,
+    by decide +kernel, List.Perm.swap _ _ _, by decide, by decide +kernel, by decide +kernel⟩
+
+/-! Non-vacuity for the concrete loader: `exampleFile` with its map list reversed satisfies every
+    hypothesis of `parse_perm_invariant`, is a different file, and parses to one string and no class;
+    two states that agree on the declared dependencies of METHOD_ID but not elsewhere. -/
+example : (∀ b ∈ exampleFile, b < 256) ∧ u32 (exampleFile.drop 0x34) = some (0x44, exampleFile.drop 0x38) ∧
+    readMap exampleFile 0x44 = .ok exampleFileMap ∧ (exampleFileMap.map (·.type)).Nodup ∧
+    (∀ e ∈ exampleFileMap, sameItems (withMap exampleFile 0x44 exampleFileMap.reverse) exampleFile e) ∧
+    withMap exampleFile 0x44 exampleFileMap.reverse ≠ exampleFile ∧
+    parseDex exampleFile = .ok ⟨[[0x41]], []⟩ := by decide +kernel
+example : agreeOn (closure deps 0x0005) witCM (clear 0x2000 witCM) ∧ witCM ≠ clear 0x2000 witCM := by
+  decide +kernel
 
 end AgVerif.C07
